@@ -179,6 +179,13 @@ func ClassifyV2(err error) string {
 		return classCode(ae.ErrorCode())
 	}
 	if c, ok := classifyCommon(err); ok {
+		// The SDK v2 client reports a missing or an existing table with the SDK's
+		// own error types (errors.As on *types.ResourceNotFoundException is how
+		// callers tell the classes apart): the library's internal error with the
+		// same code is not "a resource-not-found error" to such a caller.
+		if c == model.ErrNotFound || c == model.ErrInUse {
+			return "Other:" + c + " as an internal error, not as the SDK's error type: " + err.Error()
+		}
 		return c
 	}
 	if errors.Is(err, v2client.ErrResourceNotFoundException) {
